@@ -125,3 +125,10 @@ claim(
     "Trusted: python ast, bfsa (EXC, FACTS/Fourier-Motzkin), spec/oids.json, spec/discharge.json. numbertheory and point arithmetic summarised as raising only numbertheory.Error; arithmetic treated as total (p = 0 in explicit parameters is a recorded blind spot); Edwards paths excluded.",
     "DESIGN.md section 4, C19",
 )
+claim(
+    "C18", "other",
+    "guard normal forms with structural dominance for range / zero / length / trailing-junk checks; exception-escape analysis of the signature decoders and conversion rule for verify_digest; data-flow rule for the verification equation and canonisation",
+    "Decides only the structural clauses: in Public_key.verifies the guards r < 1, r > n-1, s < 1, s > n-1 return False before s is inverted and the verdict is x(u1*G + u2*Q) mod n == r with u1 = e*s^-1, u2 = r*s^-1 (as data flow); Private_key.sign never returns r = 0 or s = 0, sign_digest_deterministic retries only on RSZeroError with retry_gen incremented and passed to generate_k; sigdecode_string requires exactly 2*l bytes split in the middle, sigdecode_strings exactly two strings of l bytes, sigdecode_der exactly SEQUENCE{r, s} with nothing after the sequence or after s; the decoders can only raise MalformedSignature / UnexpectedDER, verify_digest converts both to BadSignatureError and raises it on a False verdict (its only normal return is True); canonical encoders replace s > order/2 by order - s. Not decided (no sound static argument in reach): that library signatures verify, that any single-bit change is rejected, OpenSSL interoperability, RFC 6979 test vectors.",
+    "Trusted: python ast, bfsa. The numeric content of ECDSA is outside this check (group law clauses under C17); group orders >= 2.",
+    "DESIGN.md section 4, C18",
+)
